@@ -60,4 +60,28 @@ theorem fmtContract_nat : FmtContract (F := Nat) (fun _ n => fmtI n) parseInt (f
   rnd_idem := fun _ _ => rfl
   exact17 := fun _ _ _ => rfl
 
+/-! ## the pickle byte stream — outside the model, as an explicit hypothesis -/
+
+/-- what is assumed of the `pickle` module for an object whose class is registered with `copyreg.pickle(cls, reducer, rebuild)`,
+    for ANY protocol 0–5 (also what `multiprocessing` / `ForkingPickler` do): `dumps` calls the reducer, writes a reference to
+    the rebuild function and the argument tuple; `loads` calls the rebuild function on the tuple read back; and the components
+    that occur here (float and bool ndarrays, bool, None, list of str, float) come out of the byte stream as they went in.
+    (`copy.copy` / `copy.deepcopy` do NOT take this route for an ndarray subclass: they use `ndarray.__copy__` /
+    `MaskedArray.__deepcopy__`, i.e. `__array_finalize__` — `C14_new_finalize_block`.) -/
+structure PickleTransport {Stream : Type} (dump : Nat → List PyVal → Stream) (load : Stream → Option (List PyVal)) : Prop where
+  args_back : ∀ proto, proto ≤ 5 → ∀ args, load (dump proto args) = some args
+
+/-- the hypothesis is satisfiable -/
+theorem pickleTransport_id : PickleTransport (Stream := Nat × List PyVal) (fun p a => (p, a)) (fun s => some s.2) where
+  args_back := fun _ _ _ => rfl
+
+/-- the precision a reader of the format string `'%.<p>g'` finds is p -/
+theorem precisionOf_gFormat (p : Nat) : precisionOf (gFormat p) = some p := by
+  unfold precisionOf gFormat
+  simp only [List.cons_append, List.nil_append, List.reverse_append, List.reverse_cons, List.reverse_nil,
+    List.reverse_reverse]
+  have hne : (fmtI p).reverse ≠ [] := by simpa using fmtI_ne_nil p
+  have he : (fmtI p).reverse.isEmpty = false := by simpa using fmtI_ne_nil p
+  simp only [he, Bool.false_eq_true, if_false, parseDigits_fmtI]
+
 end DadiVerif.FileFormat
